@@ -9,10 +9,24 @@
    guard_b h = the hierarchy is consistent with index order (every parent a live node of smaller index,
    children lists in index order: true after every builder program and every add/delete history that
    never re-uses a freed index) and links attach only to ports their operations have.
-   The JSON-text level (pydantic dump/validate) is monitored per case, not proved. *)
-From Coq Require Import List Bool Arith Permutation.
+   The JSON-text level (pydantic dump/validate) is monitored per case, not proved.
+
+   Second pass (model/HugrHist.v, spec/HugrHistS.v, proofs/HugrHistP.v): the guard is an invariant of mutation
+   histories.  A history is Hugr(root_op) followed by any list of add_node / add_const / add_link /
+   add_order_link / delete_link / delete_node / insert_hugr calls (the statement-by-statement store model of
+   C04, model/Graph.v: node table with holes, free stack, BiMap of sub-ports) and metadata assignments;
+   `view` is what the public queries show of a store state (harness/hobs.py dump).  Premises are on the
+   individual calls, each evaluated in the state the call is made in:
+     hist_ok        every call is inside the store's guard (live node arguments, link offsets >= -1,
+                    delete_node of a childless non-root node, insert_hugr under a live parent of a HUGR that
+                    was itself built inside the guard without index reuse) and no freed index is pending at
+                    any add_node / insert_hugr
+     hist_on_ports  every add_link / add_order_link names ports the operations have (C03's premise) *)
+From Coq Require Import List Bool Arith ZArith Permutation.
 Import ListNotations.
+From HV Require Import model.Graph spec.GraphS proofs.GraphInvP.
 From HV Require Import lib.Harness model.SerialHugr spec.SerialHugrS proofs.SerialHugrP.
+From HV Require Import model.HugrHist spec.HugrHistS proofs.HugrHistP.
 
 Section C02.
   Variables op sop md : Type.
@@ -56,6 +70,34 @@ Section C02.
   Theorem C02_renumbering_onto_prefix : forall (h : hugr op md) i,
     is_live h i = true -> rank h i < length (lives h).
   Proof. exact (rank_bound op md md_nil md_is_nil). Qed.
+
+  (* index_ordered is an invariant of mutation histories that never reuse an index: every call returns
+     normally, the store invariant of C04 holds and the hierarchy of the HUGR the public queries show is
+     consistent with index order *)
+  Theorem C02_history_index_ordered : forall (o : op) (m : md) (cs : list (hcmd op md)),
+    hist_ok (init o m) cs = true ->
+    all_return (init o m) cs = true /\ Inv (hrun (init o m) cs) /\
+    index_ordered_b (view (hrun (init o m) cs)) = true.
+  Proof. exact history_index_ordered. Qed.
+  (* ... and so is the whole guard when add_link / add_order_link are only called on ports the operations have *)
+  Theorem C02_history_guard : forall (o : op) (m : md) (cs : list (hcmd op md)),
+    hist_ok (init o m) cs = true -> hist_on_ports vports sports has_order (init o m) cs = true ->
+    all_return (init o m) cs = true /\ guard_b vports sports has_order (view (hrun (init o m) cs)) = true.
+  Proof. exact (history_guard vports sports has_order). Qed.
+  (* the round trip of every HUGR reached by such a history: premises only on the individual calls *)
+  Theorem C02_history_roundtrip : forall (o : op) (m : md) (cs : list (hcmd op md)),
+    hist_ok (init o m) cs = true -> hist_on_ports vports sports has_order (init o m) cs = true ->
+    exists s h', to_serial enc ndp md_is_nil (view (hrun (init o m) cs)) = Some s /\
+                 from_serial dec ndp md_nil s = Some h' /\ to_serial enc ndp md_is_nil h' = Some s /\
+                 Iso enc (view (hrun (init o m) cs)) h'.
+  Proof.
+    exact (history_roundtrip op sop md enc dec ndp md_nil md_is_nil vports sports has_order ndp_spec
+             md_nil_is_nil md_nil_unique enc_dec_enc ndp_dec_enc).
+  Qed.
+  (* the syntactic form of "no index reuse": inside the guard, no node added after a node was deleted *)
+  Theorem C02_no_add_after_delete_never_reuses : forall (o : op) (m : md) (cs : list (hcmd op md)),
+    hist_in_guard (init o m) cs = true -> no_add_after_delete cs = true -> hist_ok (init o m) cs = true.
+  Proof. exact no_add_after_delete_init. Qed.
 End C02.
 
 (* a document in canonical form (root first, parents earlier, explicit offsets, full metadata list) is a
@@ -97,6 +139,20 @@ Example C02_example :
                length (s_nodes s) = 3 /\ h_links h' = [((1, APort 0), (2, APort 0)); ((1, AOrder), (2, AOrder))].
 Proof. split; [exact Witness.good_guard|exact roundtrip_example]. Qed.
 
+(* non-vacuity of the history theorems: an insert_hugr, a deletion in the middle (of a node with a link from a
+   multi-linked port), then an order link, a metadata assignment, a link added and deleted again *)
+Example C02_history_example :
+  hist_ok (init 0 0) HistWitness.cs = true /\
+  hist_on_ports Witness.vports Witness.sports Witness.has_order (init 0 0) HistWitness.cs = true /\
+  no_add_after_delete HistWitness.cs = true /\
+  map (option_map (fun n => (n_parent n, n_children n, n_md n))) (h_nodes HistWitness.final) =
+    [Some (None, [1; 3], 0); Some (Some 0, [4], 0); None; Some (Some 0, [], 7);
+     Some (Some 1, [5], 0); Some (Some 4, [6], 0); Some (Some 5, [], 2)] /\
+  h_links HistWitness.final = [((5, APort 0), (6, APort 0)); ((1, APort 0), (3, APort 0)); ((1, AOrder), (3, AOrder))] /\
+  exists s h', Witness.to_s HistWitness.final = Some s /\ Witness.from_s s = Some h' /\ Witness.to_s h' = Some s /\
+               length (s_nodes s) = 6.
+Proof. exact history_example. Qed.
+
 Print Assumptions C02_roundtrip_fixpoint.
 Print Assumptions C02_roundtrip_iso.
 Print Assumptions C02_renumbering_order_preserving.
@@ -106,3 +162,8 @@ Print Assumptions C02_index_reuse_child_before_parent_refuted.
 Print Assumptions C02_index_reuse_sibling_order_refuted.
 Print Assumptions C02_link_on_missing_port_refuted.
 Print Assumptions C02_example.
+Print Assumptions C02_history_index_ordered.
+Print Assumptions C02_history_guard.
+Print Assumptions C02_history_roundtrip.
+Print Assumptions C02_no_add_after_delete_never_reuses.
+Print Assumptions C02_history_example.
